@@ -74,7 +74,7 @@ fn job_seed(base: u64, job: &str, idx: u64) -> u64 {
 }
 
 fn quiet_panics() {
-    std::panic::set_hook(Box::new(|_| {}));
+    if std::env::var("VERIF_PANIC_TRACE").is_err() { std::panic::set_hook(Box::new(|_| {})); }
 }
 
 // ---------------------------------------------------------------------------------------------
